@@ -84,8 +84,8 @@ class BaseGeo(BaseTransform):
     @staticmethod
     def _process_style_kwargs(style=None, **kwargs):
         if kwargs:
-            if style is None:
-                style = {}
+            # never write the style_xxx keywords into the caller's own dictionary
+            style = {} if style is None else style.copy()
             style_kwargs = {}
             for k, v in kwargs.items():
                 if k.startswith("style_"):
